@@ -44,6 +44,54 @@ CLAIMED = {
          "DESIGN.md §7 C20"),
 }
 
+
+CLAIMED.update({
+ "C01": ("runtime monitoring: reference-model monitor - the engine's SELECT * rows are compared column by column with an independent reference extraction (group->column mapping, typed literal grammars, modifiers, arrays, multi-group timestamps) over generated definitions and constructively built hostile lines",
+         "Exploration. Generated CREATE TABLE texts (1-3 capture/split patterns from a template grammar, 1-7 columns of every source kind, type and modifier) and 8 lines each (type-aware pools: 64-bit extremes, float spellings, month names, out-of-range date parts, padding; duplicated instances, near misses, noise); each engine row must lie in the per-column accept set and exist iff admission allows it.",
+         "Trusted: the regex crate for which text a group captured; std's f64 parser for the value of a text the model's grammar accepted; TZ=UTC. Accept sets where the statement is silent are listed in DESIGN Appendix A and Amendments.",
+         "DESIGN.md §7 C01"),
+ "C02": ("runtime monitoring: generator-as-oracle monitor - JSON documents are owned by the harness (own writer, number spellings, escapes, duplicate keys), expected values are read off the generated tree, never parsed",
+         "Exploration. Tables with 1-6 JSON-path columns (paths chosen by walking a generated document, every type, CONVERT/DEFAULT/NOT NULL) plus sometimes a regex column, 6 lines each incl. non-documents; every engine row is checked against per-column accept sets.",
+         "Trusted: documents nest <= 100 deep; std's f64 parser for number spellings; duplicate keys may resolve to any duplicate.",
+         "DESIGN.md §7 C02"),
+ "C03": ("runtime monitoring: node-local reference-semantics monitor - every sub-expression is evaluated through the engine on the same row and checked against the reference semantics given the engine's own values of its children; statement-level row/WHERE/name/star oracle; lowering check against the generator's AST",
+         "Exploration. Generated SELECT statements (fully parenthesised, depth <= 4, 6 % ill-typed nodes, boundary literals, zero divisors) over standard typed tables with NULLs in every position; thousands of distinct (node kind x operand type) cells are observed per run (listed in the evidence).",
+         "Trusted: extraction (C01/C02), the regex crate, std float arithmetic and case mapping; accept sets of Appendix A.4.",
+         "DESIGN.md §7 C03"),
+ "C04": ("runtime monitoring: reference fold over engine-evaluated per-row keys and arguments, compared group by group with the engine's batch result; failing statements are re-run with each aggregate alone to name the aggregate at fault",
+         "Exploration. Generated aggregate statements (1-4 aggregates of every kind in any order mixed with key expressions, with/without GROUP BY, WHERE, HAVING with hidden aggregates, agg op const, p in {0,.25,.5,.9,1}) over data with all-NULL and single-row groups.",
+         "Trusted: per-row expression values come from the engine (C03); accept sets of Appendix A.5. One open finding (group without any aggregate value gets no row) is listed in KNOWN_FINDINGS.txt.",
+         "DESIGN.md §7 C04"),
+ "C05": ("runtime monitoring: differential monitor - the engine's join result vs the engine's own result over harness-paired rows written as one pre-joined table; fault injection of missing file / table / column",
+         "Exploration. Two standard tables, keys of every scalar type incl. NULL / duplicated / absent keys, INNER / OUTER, ON in either orientation, SELECT / DISTINCT / aggregate statements over both sides' columns with qualified and unqualified names; `*` column order and clash qualification.",
+         "Trusted: the nested-loop pairing (equal non-NULL keys, r then s order, NULL-extended rows for OUTER non-aggregates); each side's rows and the statement evaluation are the engine's own.",
+         "DESIGN.md §7 C05"),
+ "C06": ("runtime monitoring: metamorphic monitor - reference-certified non-admitted lines are interleaved at random positions (main and joined file); batch and per-line incremental outputs must be unchanged",
+         "Exploration. Plain / DISTINCT / LIMIT / aggregate / join statements over standard tables (optionally with a NOT NULL column); 1-10 noise lines per case certified by the reference extraction.",
+         "Trusted: the reference extraction decides that a noise line is no row.",
+         "DESIGN.md §7 C06"),
+ "C07": ("runtime monitoring: relational monitor at the executor boundary - for every n the LIMIT n run must print the first n records of the unlimited run and consume no input beyond the line producing the n-th row",
+         "Exploration, exhaustive over n in 0..rows+1 per case. Plain / DISTINCT / aggregate / join fan-out statements over 1-3 files, NULL-only rows included.",
+         "Trusted: line provenance of rows is taken from per-line execution of the unlimited statement.",
+         "DESIGN.md §7 C07"),
+ "C08": ("runtime monitoring: relational monitor - SELECT DISTINCT output vs the same statement without DISTINCT filtered to first occurrences under the reference tuple equality; batch result and every incremental refresh",
+         "Exploration. Select, join and aggregate DISTINCT (with/without HAVING), tuples differing by NULL / one column / -0.0 vs 0.0 / recurring after long gaps, large-set family with 150-400 distinct tuples.",
+         "Trusted: reference tuple equality (NULL = NULL, numbers by value). NaN-containing outputs are skipped.",
+         "DESIGN.md §7 C08"),
+ "C09": ("runtime monitoring: crash monitor at the executor boundary (catch_unwind, overflow checks on, panic-site signatures) over hostile data and statements in all output formats; one subprocess per time zone, ASan and valgrind in thorough",
+         "Exploration. Standard tables with hostile cell/literal pools, C01's and C02's generators, arbitrary bytes, and a fixed corpus of statements over NaN / inf / i64 extremes / DST-gap times / huge intervals; outcome must be output or Err.",
+         "Trusted: silent wraps appear as overflow panics of the chk profile (`as` casts are covered by C01/C03 value oracles); hangs via the driver's watchdog.",
+         "DESIGN.md §7 C09"),
+ "C11": ("runtime monitoring: history monitor - lines fed one at a time with the follow-mode config; after every line the shown table / emitted rows are compared with a fresh batch run over exactly that prefix",
+         "Exploration, every prefix length k per case. Statements without LIMIT incl. DISTINCT, HAVING, PERCENTILE, COUNT(DISTINCT), aggregate DISTINCT over 3-30 lines.",
+         "Trusted: batch = update-only passes + one aggregate_result on a fresh engine.",
+         "DESIGN.md §7 C11"),
+ "C15": ("runtime monitoring: metamorphic monitor - 11 permutations of the input per case must give the same aggregate table; for every cut point the result over A||B must equal the key-wise combination of the results over A and B",
+         "Exploration. Order-insensitive aggregates with any GROUP BY / WHERE / HAVING over exactly summable data.",
+         "Trusted: the combiner (add / min / max / union); REAL inputs are dyadic rationals.",
+         "DESIGN.md §7 C15"),
+})
+
 NOT_YET = "monitor not built yet in this revision (planned, see DESIGN.md §7); not claimed until its check exists"
 
 def main():
